@@ -45,7 +45,12 @@ const (
 var fieldTypes = [nFields]influxql.DataType{influxql.Float, influxql.Integer, influxql.String, influxql.Boolean, influxql.Unsigned}
 
 func measName(m int) string { return fmt.Sprintf("m%d", m) }
-func fieldName(f int) string { return fmt.Sprintf("f%d", f) }
+func fieldName(f int) string {
+	if f >= nFields {
+		return fmt.Sprintf("g%d", f-nFields)
+	}
+	return fmt.Sprintf("f%d", f)
+}
 func seriesTags(s int) models.Tags {
 	t := s % nTagSets
 	return models.NewTags(map[string]string{"host": []string{"a", "b"}[t%2], "region": []string{"x", "y z"}[t/2]})
@@ -65,7 +70,47 @@ type op struct {
 	Max int    `json:"max,omitempty"`
 	A   bool   `json:"a,omitempty"`
 	N   int    `json:"n,omitempty"`
-	TY  int    `json:"ty,omitempty"` // C10/C40: explicit field type override (1-based index into fieldTypes)
+	X   [][5]int `json:"x,omitempty"` // typed/invalid points of a "wx" batch: series, kind, g-field, type, ts slot
+}
+
+const (
+	nGFields = 3
+	// kinds of points in a wx batch
+	kTyped   = 0 // one field g<G> carrying a value of type Y (1=float 2=int 3=string 4=unsigned)
+	kTimeTag = 1 // carries a tag named "time": illegal, dropped
+	kTimeFld = 2 // only field is named "time": illegal, dropped
+	kBadUTF8 = 3 // tag value with invalid UTF-8 (rejected because ValidateKeys is on in typed runs)
+)
+
+func gName(g int) string { return fmt.Sprintf("g%d", g) }
+
+func typedValue(y int, id uint64) interface{} {
+	switch y {
+	case 1:
+		return float64(id)
+	case 2:
+		return int64(id)
+	case 3:
+		return fmt.Sprintf("v%d", id)
+	default:
+		return uint64(id)
+	}
+}
+
+var typeNames = []string{"unset", "float", "integer", "string", "unsigned"}
+
+func typeIndex(t influxql.DataType) int {
+	switch t {
+	case influxql.Float:
+		return 1
+	case influxql.Integer:
+		return 2
+	case influxql.String:
+		return 3
+	case influxql.Unsigned:
+		return 4
+	}
+	return 0
 }
 
 type image struct {
@@ -73,6 +118,9 @@ type image struct {
 	cutSeq uint64
 	ev     string
 	kind   string
+	// C10: field types the shard may legitimately report after this cut (state before and after the
+	// operation in flight); nil when several clients run
+	typesPre, typesPost map[[2]int]int
 }
 
 type world struct {
@@ -89,7 +137,12 @@ type world struct {
 	imgCap int
 	cutDen int
 	mu     sync.Mutex
-	typeOf map[[2]int]int // (meas, field) -> field type index in force (C10 model)
+	typeOf map[[2]int]int // (meas, g-field) -> field type index in force (C10 model; exact with one client)
+	typePre map[[2]int]int // typeOf before the operation in flight
+	idType map[uint64]int // value id -> type it was written with
+	accepted map[[2]int]acceptedType // last fully accepted typed write per (meas, g)
+	exact  bool           // one client: the model is exact
+	touch  map[[2]int][][2]uint64 // (meas, g) -> intervals of operations that may create or remove the field
 }
 
 func (w *world) stamp() uint64 {
@@ -120,6 +173,9 @@ func (w *world) options() {
 	opt.CompactionLimiter = limiter.NewFixed(1 + cfg.Choose(3, "compactors"))
 	opt.OpenLimiter = limiter.NewFixed(4)
 	opt.SeriesIDSets = sets{}
+	if r.CfgInt("wtyped", 0) > 0 {
+		opt.Config.ValidateKeys = true
+	}
 	w.opt = opt
 }
 
@@ -198,11 +254,12 @@ func gen(r *hx.Run) []json.RawMessage {
 	wRead := r.CfgInt("wread", 6)
 	wBulk := r.CfgInt("wbulk", 1)
 	wReopen := r.CfgInt("wreopen", 0)
+	wTyped := r.CfgInt("wtyped", 0)
 	var prog []json.RawMessage
 	for i := 0; i < nops; i++ {
 		var p op
 		p.C = o.Choose(clients, "client")
-		switch o.Pick("op", 10, wRead, wDel, wDM, wSnap, wFull, 4, wBulk, wReopen) {
+		switch o.Pick("op", 10, wRead, wDel, wDM, wSnap, wFull, 4, wBulk, wReopen, wTyped) {
 		case 0:
 			p.K = "w"
 			n := 1 + o.Choose(8, "npts")
@@ -263,6 +320,13 @@ func gen(r *hx.Run) []json.RawMessage {
 			p.N = []int{50, 600, 1001, 1500, 2100}[o.Choose(5, "n")]
 		case 8:
 			p.K = "reopen"
+		case 9:
+			p.K = "wx"
+			n := 1 + o.Choose(6, "npts")
+			for k := 0; k < n; k++ {
+				kind := o.Pick("kind", 12, 1, 1, 1)
+				p.X = append(p.X, [5]int{o.Choose(useSeries, "s"), kind, o.Choose(nGFields, "g"), 1 + o.Choose(4, "y"), o.Choose(nSlots, "t")})
+			}
 		}
 		b, _ := json.Marshal(p)
 		prog = append(prog, b)
@@ -435,8 +499,22 @@ func (w *world) doOp(p op) {
 		for s := m * nTagSets; s < (m+1)*nTagSets; s++ {
 			evs = append(evs, w.h.Delete(s, math.MinInt64, math.MaxInt64, inv))
 		}
+		saved := cloneTypes(w.typeOf)
+		w.typePre = saved
+		for g := 0; g < nGFields; g++ {
+			delete(w.typeOf, [2]int{m, g}) // the state if the drop in flight takes effect
+		}
 		err := w.sh.DeleteMeasurement(ctx, []byte(measName(m)))
 		ret := w.stamp()
+		for g := 0; g < nGFields; g++ {
+			w.touch[[2]int{m, g}] = append(w.touch[[2]int{m, g}], [2]uint64{inv, ret})
+			if err != nil {
+				if v, ok := saved[[2]int{m, g}]; ok {
+					w.typeOf[[2]int{m, g}] = v
+				}
+			}
+		}
+		w.typePre = nil
 		simrt.RWUnlock(&w.guard[m])
 		for _, e := range evs {
 			e.Ret = ret
@@ -447,6 +525,8 @@ func (w *world) doOp(p op) {
 		}
 		r.Probe("measurement_drops")
 		r.Logf("c%d drop measurement m%d [%d,%d] err=%v", p.C, m, inv, ret, err)
+	case "wx":
+		w.doTyped(p)
 	case "r":
 		min, max := rangeOf(p.Min, p.Max)
 		w.read(p.S[0], p.F[0], min, max, p.A, model.Inf, fmt.Sprintf("c%d", p.C))
@@ -474,6 +554,200 @@ func (w *world) doOp(p op) {
 	}
 	if r.Sim != nil {
 		r.Sim.Progress.Add(1)
+	}
+}
+
+func cloneTypes(m map[[2]int]int) map[[2]int]int {
+	c := map[[2]int]int{}
+	for k, v := range m {
+		c[k] = v
+	}
+	return c
+}
+
+// doTyped writes a batch mixing typed points (field type conflicts) and invalid points (C10, C40).
+func (w *world) doTyped(p op) {
+	r := w.r
+	var pts []models.Point
+	type rec struct {
+		x    [5]int
+		id   uint64
+		want bool // exact model: accepted?
+	}
+	var recs []rec
+	meas := map[int]bool{}
+	for _, x := range p.X {
+		w.nextID++
+		id := w.nextID
+		s, kind, g, y, t := x[0], x[1], x[2], x[3], x[4]
+		tags := seriesTags(s).Clone()
+		fields := models.Fields{gName(g): typedValue(y, id)}
+		switch kind {
+		case kTimeTag:
+			tags = append(tags, models.NewTag([]byte("time"), []byte("1")))
+			sort.Sort(tags)
+		case kTimeFld:
+			fields = models.Fields{"time": float64(id)}
+		case kBadUTF8:
+			tags = append(tags, models.NewTag([]byte("bad"), []byte("x\xffy")))
+			sort.Sort(tags)
+		}
+		pt, err := models.NewPoint(measName(s/nTagSets), tags, fields, time.Unix(0, slotTS(t)))
+		if err != nil {
+			continue
+		}
+		pts = append(pts, pt)
+		recs = append(recs, rec{x: x, id: id})
+		meas[s/nTagSets] = true
+		w.idType[id] = y
+	}
+	if len(pts) == 0 {
+		return
+	}
+	var ms []int
+	for m := range meas {
+		ms = append(ms, m)
+	}
+	sort.Ints(ms)
+	for _, m := range ms {
+		simrt.RWRLock(&w.guard[m], 0)
+	}
+	inv := w.stamp()
+	// exact expectation (one client): points are validated in batch order
+	w.typePre = cloneTypes(w.typeOf)
+	wantDropped := 0
+	for i := range recs {
+		x := recs[i].x
+		k := [2]int{x[0] / nTagSets, x[2]}
+		switch x[1] {
+		case kTyped:
+			cur := w.typeOf[k]
+			if cur == 0 || cur == x[3] {
+				recs[i].want = true
+				if w.exact {
+					w.typeOf[k] = x[3]
+				}
+			}
+		}
+		if !recs[i].want {
+			wantDropped++
+		}
+	}
+	var evs []*model.WEv
+	for _, rc := range recs {
+		if rc.x[1] == kTyped && (rc.want || !w.exact) {
+			evs = append(evs, w.h.Write(rc.x[0], nFields+rc.x[2], slotTS(rc.x[4]), rc.id, inv))
+		}
+	}
+	err := w.sh.WritePoints(context.Background(), pts)
+	ret := w.stamp()
+	w.typePre = nil
+	for _, m := range ms {
+		simrt.RWRUnlock(&w.guard[m])
+	}
+	dropped := 0
+	var pwe tsdb.PartialWriteError
+	if err != nil {
+		if e, ok := err.(tsdb.PartialWriteError); ok {
+			pwe = e
+			dropped = e.Dropped
+		} else {
+			r.Violate("C40:write-error", "typed-write", "WritePoints failed with a non-partial error and no fault injected: %v", err)
+			return
+		}
+	}
+	for _, e := range evs {
+		e.Ret = ret
+		if !w.exact && err != nil {
+			e.Failed = true
+		}
+	}
+	for _, rc := range recs {
+		k := [2]int{rc.x[0] / nTagSets, rc.x[2]}
+		if rc.x[1] == kTyped {
+			w.touch[k] = append(w.touch[k], [2]uint64{inv, ret})
+		}
+	}
+	r.Logf("c%d wx %d points (model: %d rejected) -> dropped=%d [%d,%d] %s", p.C, len(pts), wantDropped, dropped, inv, ret, pwe.Reason)
+	r.Probe("typed_batches")
+	if wantDropped > 0 {
+		r.Probe("probe_partial_write_expected")
+	}
+	if w.exact {
+		if dropped != wantDropped {
+			prop := "C40"
+			for _, rc := range recs {
+				if rc.x[1] == kTyped && !rc.want {
+					prop = "C10"
+				}
+			}
+			r.Violate(prop+":dropped-count", "dropped-count", "batch of %d points %v: the model rejects %d (type conflicts / illegal points) but WritePoints reported dropped=%d (%v)", len(pts), p.X, wantDropped, dropped, err)
+		}
+	} else if err == nil {
+		// every typed point of the batch was accepted: its type is the field's type now
+		for _, rc := range recs {
+			if rc.x[1] != kTyped {
+				r.Violate("C40:dropped-count", "illegal-accepted", "batch with an illegal point (kind %d) was accepted without error", rc.x[1])
+			}
+		}
+	}
+	// C10: two different types must never both be accepted for one field (unless the measurement was
+	// dropped in between or concurrently)
+	if err == nil || w.exact {
+		for _, rc := range recs {
+			if rc.x[1] != kTyped || (w.exact && !rc.want) || (!w.exact && err != nil) {
+				continue
+			}
+			k := [2]int{rc.x[0] / nTagSets, rc.x[2]}
+			if prev, ok := w.accepted[k]; ok && prev.y != rc.x[3] && !w.droppedBetween(k[0], prev.ret, inv) {
+				r.Violate("C10:two-types", "two-types", "field %s of %s accepted type %s (write returned at %d) and later type %s (write invoked at %d) with no measurement drop in between", gName(k[1]), measName(k[0]), typeNames[prev.y], prev.ret, typeNames[rc.x[3]], inv)
+			}
+			w.accepted[k] = acceptedType{rc.x[3], ret}
+		}
+	}
+}
+
+type acceptedType struct {
+	y   int
+	ret uint64
+}
+
+// droppedBetween reports whether a measurement drop of m may have taken effect between a and b.
+func (w *world) droppedBetween(m int, a, b uint64) bool {
+	for s := m * nTagSets; s < (m+1)*nTagSets; s++ {
+		for _, d := range w.h.Deletes[s] {
+			if d.Min == math.MinInt64 && d.Max == math.MaxInt64 && d.Ret >= a && d.Inv <= b {
+				return true
+			}
+		}
+	}
+	return false
+}
+
+// checkTypes compares the shard's field schema with the model (C10 persistence clause).
+func (w *world) checkTypes(pre, post map[[2]int]int, when string) {
+	r := w.r
+	for m := 0; m < nMeas; m++ {
+		mf := w.sh.MeasurementFields([]byte(measName(m)))
+		for g := 0; g < nGFields; g++ {
+			got := 0
+			if mf != nil {
+				if f := mf.Field(gName(g)); f != nil {
+					got = typeIndex(f.Type)
+				}
+			}
+			k := [2]int{m, g}
+			if got != post[k] && got != pre[k] {
+				sig := "type-lost"
+				if got != 0 && post[k] == 0 && pre[k] == 0 {
+					sig = "dropped-field-back"
+				} else if got != 0 {
+					sig = "type-changed"
+				}
+				r.Violate("C10:schema-"+sig, "schema-"+sig+":"+when, "%s: field %s of %s has type %s, the model expects %s (or %s if the operation in flight at the cut is not applied)", when, gName(g), measName(m), typeNames[got], typeNames[post[k]], typeNames[pre[k]])
+				return
+			}
+		}
 	}
 }
 
@@ -663,7 +937,15 @@ func (w *world) hook(f *simfs.FS, ev *simfs.Event) error {
 	if tear > 0 {
 		kind = "torn-" + kind
 	}
-	w.images = append(w.images, image{dir: dst, cutSeq: w.stamp(), ev: fmt.Sprintf("%s tear=%d", ev, tear), kind: kind})
+	im := image{dir: dst, cutSeq: w.stamp(), ev: fmt.Sprintf("%s tear=%d", ev, tear), kind: kind}
+	if w.exact {
+		im.typesPost = cloneTypes(w.typeOf)
+		im.typesPre = im.typesPost
+		if w.typePre != nil {
+			im.typesPre = cloneTypes(w.typePre)
+		}
+	}
+	w.images = append(w.images, im)
 	r.Probe("fault_crash_m1")
 	r.Probe("probe_cut_" + strings.ReplaceAll(kind, ":", "_"))
 	if tear > 0 {
@@ -695,7 +977,7 @@ func fileKind(p string) string {
 }
 
 func exec(r *hx.Run, prog []json.RawMessage) {
-	w := &world{r: r, h: model.NewHistory(), typeOf: map[[2]int]int{}}
+	w := &world{r: r, h: model.NewHistory(), typeOf: map[[2]int]int{}, idType: map[uint64]int{}, touch: map[[2]int][][2]uint64{}, accepted: map[[2]int]acceptedType{}}
 	fs := r.NewFS("db")
 	if os.Getenv("DSIM_DEBUG") != "" {
 		fs.LogCap = 100000
@@ -717,6 +999,7 @@ func exec(r *hx.Run, prog []json.RawMessage) {
 		r.MixSig(p.K, uint64(len(p.S))<<8|uint64(p.C))
 	}
 	sort.Ints(order)
+	w.exact = len(order) <= 1
 	r.Simulate(func() {
 		if err := w.open(fs.Root); err != nil {
 			r.Violate("C02:open-error", "open-fresh", "open of a fresh shard failed: %v", err)
@@ -750,6 +1033,9 @@ func exec(r *hx.Run, prog []json.RawMessage) {
 			w.readAll(model.Inf, "settled")
 		}
 		w.coverage()
+		if w.exact && len(r.Viol) == 0 {
+			w.checkTypes(w.typeOf, w.typeOf, "quiescent")
+		}
 		if len(r.Viol) == 0 && !r.CfgBool("noreopen") {
 			if err := w.close(); err != nil {
 				r.Violate("C02:close-error", "close", "clean close failed: %v", err)
@@ -757,6 +1043,9 @@ func exec(r *hx.Run, prog []json.RawMessage) {
 				r.Violate("C02:reopen-error", "reopen", "clean reopen failed: %v", err)
 			} else {
 				w.readAll(model.Inf, "reopened")
+				if w.exact && len(r.Viol) == 0 {
+					w.checkTypes(w.typeOf, w.typeOf, "after-clean-reopen")
+				}
 			}
 		}
 		if err := w.close(); err != nil && len(r.Viol) == 0 {
@@ -791,13 +1080,18 @@ func (w *world) recover(im image) {
 		})
 	}
 	r.Simulate(func() {
-		w2 := &world{r: r, h: w.h, opt: w.opt, typeOf: w.typeOf}
+		w2 := &world{r: r, h: w.h, opt: w.opt, typeOf: w.typeOf, idType: w.idType, touch: w.touch, accepted: w.accepted}
 		if err := w2.open(im.dir); err != nil {
 			r.Violate("C02:reopen-error", "reopen-after-crash:"+im.kind, "shard does not open after crash at [%s]: %v", im.ev, err)
 			return
 		}
+		if im.typesPost != nil {
+			w2.checkTypes(im.typesPre, im.typesPost, "after-crash")
+		}
 		before := len(r.Viol)
-		w2.readAll(im.cutSeq, "recovered["+im.ev+"]")
+		if before == 0 {
+			w2.readAll(im.cutSeq, "recovered["+im.ev+"]")
+		}
 		if len(r.Viol) > before {
 			// make the cut kind part of the signature
 			for i := before; i < len(r.Viol); i++ {
